@@ -204,6 +204,8 @@ func vrDoc(o *JV, vr *WVR) {
 		}
 		if vr.RO.By.Arg != "" {
 			ro.O = append(ro.O, KV{"bucketBy", jStr(vr.RO.By.Arg)})
+		} else if hashStr(fmt.Sprint("by/", vr.RO.Kind, len(vr.RO.Vars), vr.RO.CK))%6 == 0 {
+			ro.O = append(ro.O, KV{"bucketBy", jStr("")})
 		}
 		o.O = append(o.O, KV{"rollout", ro})
 	}
@@ -323,6 +325,8 @@ func segmentDoc(w *WSegment) JV {
 		}
 		if r.By.Arg != "" {
 			ro.O = append(ro.O, KV{"bucketBy", jStr(r.By.Arg)})
+		} else if hashStr(fmt.Sprint("by/", r.ID, len(r.Clauses), r.RCK))%6 == 0 {
+			ro.O = append(ro.O, KV{"bucketBy", jStr("")})
 		}
 		if r.RCK != "" {
 			ro.O = append(ro.O, KV{"rolloutContextKind", jStr(r.RCK)})
@@ -629,7 +633,11 @@ func omitVsDefault(r *rng, kind string, d JV) (JV, JV, string, bool) {
 		x.O = kept
 	}
 	for _, n := range chosen {
-		ob[i].o.O = append(ob[i].o.O, KV{n, cloneJV(defaults[oa[i].t][n])})
+		dv := cloneJV(defaults[oa[i].t][n])
+		if n == "bucketBy" && r.bool() {
+			dv = jStr("") // the empty string, which LaunchDarkly has been known to send, is "not set" too
+		}
+		ob[i].o.O = append(ob[i].o.O, KV{n, dv})
 	}
 	name := strings.Join(chosen, "+")
 	return a, b, oa[i].t + "." + name, true
